@@ -663,6 +663,14 @@ class Env:
             if e[2] is not None:
                 self.exec_expr(e[2])
             return
+        if k == "iflet":
+            # the scrutinee (an enum / Option) is not modelled: both outcomes are possible
+            c = self.fresh("iflet_taken", "bool")
+            fake = ("if", ("path", ["__iflet__"]), e[3], e[4], 0)
+            self.vars["__iflet__"] = Val(c, "bool")
+            self.exec_expr(fake)
+            self.vars.pop("__iflet__", None)
+            return
         if k == "macro":
             if e[1] in ("trace", "debug", "info", "warn", "error", "debug_assert", "println"):
                 return
